@@ -7,6 +7,7 @@ use crate::receiver::writer::{
     ObjectCacheControl, ObjectMetadata, ObjectWriter, ObjectWriterBuilderResult,
 };
 use crate::tools::error::{FluteError, Result};
+use base64::Engine;
 use std::collections::VecDeque;
 use std::rc::Rc;
 use std::time::Instant;
@@ -201,7 +202,7 @@ impl ObjectReceiver {
                 .map(|writer| writer.state == ObjectWriterSessionState::Opened)
                 .unwrap_or(false);
             if is_opened {
-                self.complete(now);
+                self.complete_empty_object(now);
             }
             return Ok(());
         }
@@ -411,7 +412,7 @@ impl ObjectReceiver {
                 .unwrap_or(false);
             if self.transfer_length == Some(0) && is_opened {
                 // The packet of an empty object has been received before the FDT
-                self.complete(now);
+                self.complete_empty_object(now);
             } else {
                 self.error("No more packet for this object", now, true);
             }
@@ -587,6 +588,25 @@ impl ObjectReceiver {
             }
         }
         Ok(())
+    }
+
+    /// No block is written for an empty object, its MD5 is the MD5 of no data
+    fn complete_empty_object(&mut self, now: std::time::SystemTime) {
+        if self.enable_md5_check {
+            if let Some(content_md5) = self.content_md5.as_ref() {
+                let md5 = base64::engine::general_purpose::STANDARD.encode(md5::compute(b"").0);
+                if !content_md5.eq(&md5) {
+                    log::error!(
+                        "MD5 does not match expects {:?} received {:?}",
+                        content_md5,
+                        md5
+                    );
+                    self.error("MD5 does not match", now, false);
+                    return;
+                }
+            }
+        }
+        self.complete(now);
     }
 
     fn complete(&mut self, now: std::time::SystemTime) {
